@@ -30,6 +30,8 @@ func propC13(p *Prog, r *Report) {
 	c13RegistryOrigin(p, r)
 	c07CommitOrder(p, r, "C13.b")
 	c13Rollback(p, r)
+	r.Rule("C13.d", "each Begin yields an independent transaction: generated id, requested level, fresh snapshot point, registry error returned (shared with C02.f)")
+	c02Defaults(p, r, "C13.d")
 	n := wrapClassRule(p, r, "C13.c", wrapOpts{
 		Sentinels: []string{"fs_db.ErrTxNotFound"},
 		Entries:   inlineEntries(p),
